@@ -223,6 +223,26 @@ CLAIMED = {
         "technique": "Coq proof (filtering commutes with the stable sort; direct/inverse code paths related by a swap) + "
                      "differential correspondence + metamorphic oracle",
     },
+    "C15": {
+        "text": "Machine-checked proofs (7 theorems, closed under the global context) about an executable model of the "
+                "endpoint path -- result reader, token tuning, per-node cache with its local graph, depth-1 traversal, "
+                "class/selector queries with LIMIT, the tracker's early stop -- with the endpoint's answer order and "
+                "the set-to-list order as oracle arguments: for all graphs of C15_dom, all modes and both cache settings "
+                "the triples delivered to each pass are, as multisets, the neighbourhoods of the targets "
+                "(C15_triples), the cache never changes what is delivered (C15_cache_same_result), the cached query log "
+                "is a subsequence of the uncached one with no node fetched twice (C15_cache_log_partial), and the "
+                "delivered triples are the restriction of G the local feature pass considers (C15_equals_local_partial; "
+                "equality of the shapes then rests on C09's permutation invariance).  Tied to /repo by exact "
+                "query-sequence and delivered-triple correspondence against an in-process rdflib-backed endpoint and a "
+                "metamorphic oracle endpoint vs local extraction.",
+        "design": "DESIGN.md sections 0a, 7 (C15), 11",
+        "note": "Partial: (c) not for capped target_classes; shapes equality composes with C09 informally.  Six findings "
+                "C15-F1..F6 (F2 inside the property's domain: with inverse paths a statement linking two targets is "
+                "delivered and counted twice).  The HTTP client is replaced by monkey-patching "
+                "shexer.io.sparql.query._query_endpoint_json_result; rdflib evaluates the query text (trusted).",
+        "technique": "executable Gallina model with oracle arguments; cache invariant by induction over requests; "
+                     "differential correspondence on exact query/triple sequences; metamorphic oracle",
+    },
     "C16": {
         "text": "Machine-checked proofs (Coq 8.16.1, closed) that the tracker model with a cap lists per class exactly "
                 "the first min(k,|class|) instances in both target modes (early stop proved harmless), equals the "
@@ -252,6 +272,41 @@ CLAIMED = {
                 "Trusted base as C01.",
         "technique": "Gallina model + Consts.v + bounded-exhaustive function-level and sampled end-to-end differential "
                      "correspondence + brute-force Spec oracle",
+    },
+    "C18": {
+        "text": "Machine-checked proofs (closed under the global context) about a Gallina state machine of the Shaper API "
+                "glue -- store of namespace-dictionary objects, memo slots, statement mutation by examples_mode, the "
+                "line buffer flushed every flush_size lines (from Consts.v) to a string or file -- over an abstract "
+                "pipeline: the file sink's content equals the string sink's result and the concatenation of the lines, "
+                "for ANY number of lines, flush size and prior file content (C18_file_eq_string), and for every "
+                "well-formed history of ANY length every call returns or writes exactly what a fresh Shaper with its own "
+                "dictionary copy returns for the call's own arguments (C18_pure, C18_free_pure; shared dictionaries "
+                "included).  Tied to /repo by predicting every output of all 2379 call histories of length <= 3 on "
+                "several configurations (incl. outputs beyond two 5000-line flushes) and pairs of Shapers sharing a "
+                "dictionary, against fresh-Shaper references.",
+        "design": "DESIGN.md sections 0a, 7 (C18), 11",
+        "note": "Four history dependences found this way were repaired in /repo (C18-X-1b070df, -51cea95, -b8215b0, "
+                "-15b8381); their pinned histories are regression cases.  Hypotheses: threshold equality decidable; the "
+                "SHACL serializer ignores example comments (monitored).  Trusted base as C01.",
+        "technique": "Gallina state machine over an abstract pipeline; induction over the history and over the line "
+                     "list; free-instance correspondence with the real Shaper on all histories <= 3",
+    },
+    "C19": {
+        "text": "Machine-checked proofs (closed under the global context) that the places where a result could depend on "
+                "something other than the arguments do not: the shapes prefix is independent of the random oracle "
+                "whenever a priority prefix is free, for all namespace dictionaries (C19_prefix_oracle_independent, "
+                "..._random_iff_all_taken); the two 'shapes to remove' sets give the same result under any iteration "
+                "order (C19_profile/_shape_removal_order_independent); the target-node collection is order-independent "
+                "as a multiset of fetched triples (C19_target_order_partial).  The list of nondeterminism sites is tied "
+                "to the source by an AST scan against corpus/C19/sites.json on every run; every case is run in fresh "
+                "interpreters under 8 / 64 PYTHONHASHSEED values and the ShExC bytes / SHACL isomorphism digests "
+                "compared.",
+        "design": "DESIGN.md sections 0a, 7 (C19), 11",
+        "note": "rdflib's iteration order and blank-node ids are not modelled: any rdflib-sourced input (parsed text or a "
+                "Graph object) is hash-seed dependent (finding C19-F1).  One defect repaired in /repo (C19-X-c9a1e70). "
+                "Trusted: the AST scanner's site patterns.",
+        "technique": "explicit oracle arguments with independence theorems + AST scan of nondeterminism sites + fresh "
+                     "interpreters across hash seeds",
     },
     "C20": {
         "text": "Machine-checked proof (Coq 8.16.1, closed under the global context) that the model of Shaper.__init__'s "
